@@ -22,27 +22,45 @@ Proof.
   unfold shift_site. exact (placement_site_periodic sym s n m i00 i01 i10 i11 Hrow E00 E01 E10 E11).
 Qed.
 
-(* C03: a copy moved across a cell face - same Lennard-Jones score *)
-Theorem lj_score_site_shift (st : ljstate NumR) (n m : Z) :
-  Forall int_sym (l_syms NumR st) ->
-  lj_score NumR rpowi (mkLjstate (l_syms NumR st) (shift_site (l_site NumR st) n m) (l_cell NumR st) (l_shape NumR st))
+(* every occupied site moved by its own whole lattice vector *)
+Definition shifted (ss ss' : list siteR) : Prop :=
+  Forall2 (fun s s' => exists n m : Z, s' = shift_site s n m) ss ss'.
+
+Lemma shifted_length ss ss' : shifted ss ss' -> length ss' = length ss.
+Proof. intros H. induction H; cbn; congruence. Qed.
+
+Lemma flat_positions_shift (syms : list tfR) ss ss' :
+  Forall int_sym syms -> shifted ss ss' ->
+  flat_map (positions NumR syms) ss' = flat_map (positions NumR syms) ss.
+Proof.
+  intros Hs H. induction H as [|s s' l l' (n & m & ->) _ IH]; [reflexivity|].
+  cbn [flat_map]. rewrite IH, (positions_site_shift _ _ n m Hs). reflexivity.
+Qed.
+
+Lemma shifted_one (s : siteR) (n m : Z) : shifted [s] [shift_site s n m].
+Proof. constructor; [exists n, m; reflexivity|constructor]. Qed.
+
+(* C03: copies moved across cell faces - same Lennard-Jones score *)
+Theorem lj_score_site_shift (st : ljstate NumR) (ss' : list siteR) :
+  Forall int_sym (l_syms NumR st) -> shifted (l_sites NumR st) ss' ->
+  lj_score NumR rpowi (mkLjstate (l_syms NumR st) ss' (l_cell NumR st) (l_shape NumR st))
   = lj_score NumR rpowi st.
 Proof.
-  intros H. unfold lj_score, lj_sum, lj_cartesian, lj_relative. cbn [l_syms l_site l_cell l_shape].
-  rewrite (positions_site_shift _ _ n m H). reflexivity.
+  intros H Hsh. unfold lj_score, lj_sum, lj_cartesian, lj_relative. cbn [l_syms l_sites l_cell l_shape].
+  rewrite (flat_positions_shift _ _ _ H Hsh), (shifted_length _ _ Hsh). reflexivity.
 Qed.
 
 (* C02 / C01: the same for the hard score (including whether the state is scored at all) *)
-Theorem packed_score_site_shift (st : pstate NumR) (n m : Z) :
-  Forall int_sym (p_syms NumR st) ->
-  packed_score NumR (mkPstate (p_syms NumR st) (shift_site (p_site NumR st) n m) (p_cell NumR st)
+Theorem packed_score_site_shift (st : pstate NumR) (ss' : list siteR) :
+  Forall int_sym (p_syms NumR st) -> shifted (p_sites NumR st) ss' ->
+  packed_score NumR (mkPstate (p_syms NumR st) ss' (p_cell NumR st)
                               (p_shape NumR st) (p_radius NumR st) (p_area NumR st))
   = packed_score NumR st.
 Proof.
-  intros H. unfold packed_score, check_intersection, density_precheck, in_cell_intersection, periodic_intersection,
+  intros H Hsh. unfold packed_score, check_intersection, density_precheck, in_cell_intersection, periodic_intersection,
     cartesian_positions, relative_positions, total_shapes, shells_of.
-  cbn [p_syms p_site p_cell p_shape p_radius p_area].
-  rewrite (positions_site_shift _ _ n m H). reflexivity.
+  cbn [p_syms p_sites p_cell p_shape p_radius p_area].
+  rewrite (flat_positions_shift _ _ _ H Hsh), (shifted_length _ _ Hsh). reflexivity.
 Qed.
 
 (* every operation of the seven groups (as parsed: integer linear part, half-integer translation) qualifies *)
